@@ -41,6 +41,11 @@ void m4ri_mmc_cleanup(void);
  * \brief Number of blocks that are cached.
  */
 #define __M4RI_MMC_NBLOCKS 16
+#if defined(M4RI_VERIF) && defined(M4RI_VERIF_MMC_NBLOCKS)
+/* verification hook: a smaller block cache makes eviction reachable by short operation sequences */
+#undef __M4RI_MMC_NBLOCKS
+#define __M4RI_MMC_NBLOCKS M4RI_VERIF_MMC_NBLOCKS
+#endif
 
 /**
  * \brief Maximal size of blocks stored in cache.
